@@ -4,6 +4,33 @@ From DBG Require Import Spec.Dna Spec.ScanSpec Algo.Scan Check.ScanCheck Proofs.
 Import ListNotations.
 Open Scope nat_scope.
 
+(* For every score function, every sequence and all 1 <= p <= k <= |seq| (with the two size guards forced by
+   the u32 / u16 fields), the scan succeeds and the REPORTED intervals (after the narrowing casts, read back
+   as numbers by [iv_nat]) satisfy [scan_ok] of Spec/ScanSpec.v, i.e.
+   (a) the first interval starts at 0 and starts strictly increase;
+   (b) start_{j+1} = start_j + len_j - (k-1) (overlap exactly k-1) and the last interval ends at |seq|;
+       hence [covered_once]: every k-mer start lies in exactly one interval;
+   (c) k <= len <= 2k-p;
+   (d) minimizer = the p-mer at minimizer_pos, and i <= minimizer_pos, minimizer_pos + p <= i + k for every
+       k-mer start i of the interval;
+   (e) score minimizer <= score of every p-mer of the interval;
+   (f) a non-last interval with next k-mer start e ends only because minimizer_pos < e or the p-mer entering
+       at e+k-p scores strictly below the minimizer. *)
+Theorem C07_scan_spec : forall (score : dna -> N) sq k p,
+  1 <= p -> p <= k -> k <= length sq -> (N.of_nat (length sq) < 2 ^ 32)%N -> (N.of_nat (2 * k - p) < 2 ^ 16)%N ->
+  exists ivs, scan score sq k p = Some ivs /\
+              scan_ok score sq k p (map iv_nat ivs) /\ covered_once sq k (map iv_nat ivs).
+Proof. exact scan_spec. Qed.
+
+(* the same for the usize values before the casts, without the size guards *)
+Theorem C07_scan_raw_ok : forall (score : dna -> N) sq k p, 1 <= p -> p <= k -> k <= length sq ->
+  scan_ok score sq k p (scan_raw score sq k p).
+Proof. exact scan_raw_ok. Qed.
+
+(* (a)+(b)+(c) imply exact cover, for any interval list *)
+Theorem C07_covered_once : forall (score : dna -> N) sq k p l, scan_ok score sq k p l -> covered_once sq k l.
+Proof. exact scan_ok_covered. Qed.
+
 (* The length claim (c) cannot hold without the guard 2k-p < 2^(width of `len`): on the same model with a
    4-bit length field, k = 9, p = 2 and 16 A's give ONE interval of reported length 0 (finding F7 is this at
    width 16: k = 32772, p = 8, 65536 A's). *)
@@ -20,5 +47,8 @@ Example C07_nonvacuous_const :
   scan const_score (repeat 0%N 12) 5 2 = Some [mkInterval [0;0]%N 3 0 8; mkInterval [0;0]%N 7 4 8].
 Proof. exact scan_example_const. Qed.
 
+Print Assumptions C07_scan_spec.
+Print Assumptions C07_scan_raw_ok.
+Print Assumptions C07_covered_once.
 Print Assumptions C07_scan_len_wrap_refuted.
 Print Assumptions C07_nonvacuous_lex.
